@@ -239,6 +239,13 @@ def programs(tier):
         ("method-call,call-args,", "h2(mkacc({L}).add({L}), {L})"),
         ("struct-construction,", "Acc({L}).add({L})"),
         ("struct-construction,binop,", "(Acc({L}).base + Acc({L}).base)"),
+        # effects inside comprehensions and around constant conditions (provably dead branches)
+        ("comprehension,", "array(h2({L}, i) for i in range(2))[1]"),
+        ("comprehension,binop,", "({L} + array(h2({L}, i) for i in range(2))[0])"),
+        ("comprehension,comprehension-condition,", "array(h2({L}, i) for i in range(3) if idf(i) != 1)[1]"),
+        ("ifexp,constant-condition,", "({L} if True else {L})"),
+        ("ifexp,constant-condition,", "({L} if False else {L})"),
+        ("binop,ifexp,constant-condition,", "({L} + ({L} if False else {L}))"),
     ]
     for kinds, t in extra_e:
         for cn, lines in CONTEXTS_E:
@@ -246,7 +253,10 @@ def programs(tier):
     for kinds, t in [("or,or-chain3,", "({B:g} or {B:g} or {B:g})"), ("and,and-chain3,", "({B:g} and {B:g} and {B:g})"),
                      ("or,and,mixed-chain3,", "({B:g} or {B:g} and {B:g})"), ("or,and,mixed-chain3,", "({B:g} and {B:g} or {B:g})"),
                      ("or,or-chain4,", "({B:g} or {B:g} or {B:g} or {B:g})"), ("and,and-chain4,", "({B:g} and {B:g} and {B:g} and {B:g})"),
-                     ("or,not,or-chain3,", "({B:notg} or {B:g} or {B:notg})")]:
+                     ("or,not,or-chain3,", "({B:notg} or {B:g} or {B:notg})"),
+                     ("and,constant-operand,", "({B:g} and True and {B:g})"), ("or,constant-operand,", "({B:g} or False or {B:g})"),
+                     ("and,constant-operand,", "(False and {B:g})"), ("or,constant-operand,", "(True or {B:g})"),
+                     ("and,or,constant-operand,", "({B:g} and (True or {B:g}))"), ("not,constant-operand,", "(not True or {B:g})")]:
         for cn, lines in CONTEXTS_B:
             progs.append((kinds + cn, [l.replace("{X}", t) for l in lines]))
     progs.append(("compare,ifexp,if-cond", ["if ({L} < ({L} if {B:g} else {L})):", '    result("then", 1)', "else:", '    result("else", 0)']))
